@@ -101,8 +101,18 @@ class Entry(object):
                 self.accepts_generator = False
                 if k == 'init_lp' or k == 'controller':
                     ll = chi.LogLikelihood(mech, errs, obs, times)
-                    self.obj = chi.LogPosterior(ll, zoo.build_prior(
-                        {'n': ll.n_parameters(), 'kind': 'lognormal'}))
+                    prior = zoo.build_prior(
+                        {'n': ll.n_parameters(), 'kind': 'lognormal'})
+                    if recipe.get('wild_prior'):
+                        # a legal prior with mass where the likelihood is
+                        # -inf (a Gaussian on the last error parameter)
+                        import pints
+                        n_ = ll.n_parameters()
+                        prior = pints.ComposedLogPrior(*(
+                            [pints.LogNormalLogPrior(-0.3, 0.2)
+                             for _ in range(n_ - 1)]
+                            + [pints.GaussianLogPrior(0.25, 0.4)]))
+                    self.obj = chi.LogPosterior(ll, prior)
                 elif k == 'init_hp':
                     lls = []
                     for i in range(recipe.get('n_ids', 2)):
@@ -166,6 +176,14 @@ class Entry(object):
             # points belong to the seed and the final number of runs
             for n_ in args.get('runs', []):
                 ctrl.set_n_runs(n_)
+            if args.get('iters') and cls is chi.SamplingController:
+                # a (very short) run: the chains start from the seeded
+                # points, and so do the samples
+                res = ctrl.run(n_iterations=int(args['iters']))
+                first = [np.asarray(res[v_]).ravel()
+                         for v_ in sorted(res.data_vars)]
+                return np.hstack([np.array(ctrl._initial_params).ravel()]
+                                 + first)
             return np.array(ctrl._initial_params)
         return np.array(o.sample_initial_parameters(args['n_samples'], seed))
 
@@ -563,6 +581,10 @@ def gen_entry(rng, h, kind):
         if rng.random() < 0.3:
             r['args'][0]['runs'] = []      # the default number of runs
             r['args'][1]['runs'] = r['args'][1]['runs'][:-1] + [5]
+        if which == 'sampling' and rng.random() < 0.3:
+            for a_ in r['args']:
+                a_['iters'] = 2
+            r['wild_prior'] = rng.random() < 0.6
     if kind in ('init_hp', 'init_fp'):
         nd = n_par if kind == 'init_hp' else n_mech
         n_ids = rng.randint(1, 3)
